@@ -555,7 +555,14 @@ fn mono_expr(ctx: &mut Ctx, e: &core::Expr, s: &Subst) -> MonoExpr {
             // instantiated at the function type the context gives it.
             if let Ty::TFunc { params, ret_ty } = &new_ty
                 && !has_tparam(&new_ty)
-                && let Some(callee) = ctx.orig_fns.get(&name)
+                && let Some(callee) = ctx.orig_fns.get(&name).or_else(|| {
+                    // a method of a generic inherent impl is named by base type and method
+                    parse_inherent_method_fn_name(&name).and_then(|(base_type, method_name)| {
+                        ctx.inherent_method_index
+                            .get(&(base_type.to_string(), method_name.to_string()))
+                            .and_then(|generic_fname| ctx.orig_fns.get(generic_fname))
+                    })
+                })
                 && fn_is_generic(callee)
                 && callee.params.len() == params.len()
             {
